@@ -386,7 +386,7 @@ def r_no_reinit(c):
                  f"{tbl}:no-assignment-after-accumulation", m.loc(m.module_of(fd), fd),
                  "entries are only created by the accumulating helper", nontrivial=False)
     # the allreduce operator that merges the ranks' dependency tables keeps both sides
-    u = m.func(D + "partition._set_dict_union_mpi")
+    u = m.normal(m.func(D + "partition._set_dict_union_mpi"))
     a, b = u.args.args[0].arg, u.args.args[1].arg
     ok = False
     for e in find(u, f"for $k, $v in {b}.items():\n    $r[$k] = $$rhs"):
@@ -425,8 +425,9 @@ def r_global_guards(c):
                     if isinstance(t, ast.Name) and t.id not in glob:
                         glob.add(t.id)
                         changed = True
-    loops = [l for l in ast.walk(f) if isinstance(l, ast.For) and isinstance(l.iter, ast.Name)
-             and l.iter.id in glob]
+    # statement loops and comprehension generators alike
+    loops = [l for l in ast.walk(f) if isinstance(l, (ast.For, ast.comprehension))
+             and isinstance(l.iter, ast.Name) and l.iter.id in glob]
     if not loops:
         raise AnalysisError("anchor vanished: loop over the broadcast schedule")
     for l in loops:
